@@ -90,6 +90,11 @@ def mutate(rng, prob, kw, d):
     if d.get("growing") and rng.random() < 0.5:
         # batches of new directions that do not divide the number of missing points: the last batch meets a full set
         up["growing.num_new_dirns_each_iter"] = int(rng.integers(2, 4))
+    if up.get("regression.num_extra_steps") and rng.random() < 0.5:
+        # as many (or more) extra regression steps as interpolation points: the documented cap npt-1 keeps the iterate's row out
+        # of the points that are moved, so the recorded best objective cannot jump up (seeded change C18_10: two sites)
+        up["regression.num_extra_steps"] = int(kw.get("npt", prob["n"] + 1)) + int(rng.integers(0, 3))
+        d["regression"] = up["regression.num_extra_steps"]
     if d.get("growing") and rng.random() < 0.3:
         up["growing.reset_delta"] = True
         if rng.random() < 0.5:
